@@ -28,7 +28,12 @@ func firstContainer(ch cache.Cache) cache.Container {
 }
 
 // Mutate changes the cache in a known way and saves it once.  The returned error is Save's, where the API returns it.
-func Mutate(ch cache.Cache, variant string) error {
+func Mutate(ch cache.Cache, variant string) (err error) {
+	defer func() {
+		if p := recover(); p != nil {
+			err = fmt.Errorf("panic in the cache API: %v", p)
+		}
+	}()
 	switch variant {
 	case "entry":
 		ch.SetPolicyEntry(markerKey, "marker-value")
